@@ -3,5 +3,7 @@ CONSTANTS
     Alphabet = {0, 1, 2, 3, 255}
     MaxLen = 7
     ValueLens = {0, 1, 2, 255, 256, 1000}
-INVARIANTS InRange PrefixOfWalk StopsForGood Tiling Bounded Exhausts ItemCount Export
+    ProgLens <- ProgLensThorough
+    NthArgs <- NthArgsThorough
+INVARIANTS InRange WalkInvs StopsForGood OnTheWalk Bounded ItemCount Export
 CHECK_DEADLOCK FALSE
